@@ -313,6 +313,9 @@ func Run(t *testing.T, cfg Config, body func()) (res Result) {
 		}
 	}()
 	synctest.Test(t, func(t *testing.T) {
+		// created inside the bubble: only then is the scheduler's wait on it a durable
+		// block, which lets the bubble go idle so that virtual timers fire
+		sc.activity = make(chan struct{}, 1)
 		cur.Store(sc)
 		sc.spawn(body)
 		for {
